@@ -28,17 +28,22 @@ TripleOk(r) ==
     /\ (r.ab <= 0 /\ r.bc <= 0 => r.ac <= 0)
     /\ (r.ab >= 0 /\ r.bc >= 0 => r.ac >= 0)
 
+\* PartialOrd and the comparison operators give the same order (it is total: never incomparable)
+ViaOperators(r, c) == r.pord = c /\ r.le = (c <= 0) /\ r.ge = (c >= 0)
+
 EvrOk(r) ==     \* r.x, r.y : [e, v, r] ; reported: ord, eq, via_str (rpm_evr_compare on the texts)
     LET c == EvrCmp(r.x, r.y) IN
     /\ r.ord = c
     /\ (r.eq = TRUE => r.ord = 0)                   \* equal values compare as equal
     /\ (EvrEq(r.x, r.y) => r.eq = TRUE)
     /\ (Has(r, "via_str") => r.via_str = c)
+    /\ ViaOperators(r, c)
 
 NevraOk(r) ==
     LET c == NevraCmp(r.x, r.y) IN
     /\ r.ord = c
     /\ (r.eq = TRUE => r.ord = 0)
+    /\ ViaOperators(r, c)
 
 EventOk(r) ==
     CASE r.event = "CmpRow"  -> RowOk(r)
